@@ -184,18 +184,16 @@ Lemma scan_added_remembered : forall d ring a ring1 a',
 Proof.
   intros d ring. induction ring as [|[e|] t IH]; intros a ring1 a' H Ha; simpl in H.
   - inversion H; subst. now left.
-  - pose proof (scan_descs_stop d (epts e =? ptsv d)%N (edescs e) 0 a) as S.
-    destruct (scan_descs d (epts e =? ptsv d)%N (edescs e) 0 a) as [[napp a1] r1] eqn:SD. simpl in S.
+  - destruct a; [now left|].
+    pose proof (scan_descs_stop d (epts e =? ptsv d)%N (edescs e) 0 false) as S.
+    destruct (scan_descs d (epts e =? ptsv d)%N (edescs e) 0 false) as [[napp a1] r1] eqn:SD. simpl in S.
     destruct r1 as [x|]; [discriminate|].
-    rewrite (scan_descs_through d _ _ 0 a (eq_sym S)) in SD. inversion SD; subst napp a1. clear SD.
+    rewrite (scan_descs_through d _ _ 0 false (eq_sym S)) in SD. inversion SD; subst napp a1. clear SD.
     destruct (scan_ring d (ptsv d) t _) as [[t' a2] r] eqn:R. inversion H; subst ring1 a2 r. clear H.
-    destruct (epts e =? ptsv d)%N eqn:Sm; simpl in *.
-    + destruct (edescs e) as [|x l] eqn:Ee; simpl in *.
-      * rewrite orb_false_r in R. destruct (IH _ _ _ R Ha) as [X|(e' & Hi & X)]; [now left|right].
-        exists e'. split; [now right|exact X].
-      * right. eexists. split; [now left|]. simpl. split; [now apply N.eqb_eq|].
-        right. apply in_or_app. right. now left.
-    + rewrite orb_false_r in R. destruct (IH _ _ _ R Ha) as [X|(e' & Hi & X)]; [now left|right].
+    destruct ((epts e =? ptsv d)%N && negb (is_nil (edescs e))) eqn:B.
+    + right. apply andb_true_iff in B. destruct B as [B1 B2]. eexists. split; [now left|]. simpl.
+      split; [now apply N.eqb_eq|]. rewrite B1, B2. simpl. apply in_or_app. right. now left.
+    + try rewrite orb_false_l in R; try rewrite B in R; simpl in R. destruct (IH _ _ _ R Ha) as [X|(e' & Hi & X)]; [now left|right].
       exists e'. split; [now right|exact X].
   - destruct (scan_ring d (ptsv d) t a) as [[t' a2] r] eqn:R. inversion H; subst ring1 a2 r.
     destruct (IH _ _ _ R Ha) as [X|(e' & Hi & X)]; [now left|right]. exists e'. split; [now right|exact X].
